@@ -12,6 +12,7 @@ import (
 	"path/filepath"
 	"strings"
 	"sync"
+	"sync/atomic"
 	"testing"
 	"time"
 
@@ -22,9 +23,76 @@ import (
 	"github.com/containerd/nri/pkg/api"
 	"github.com/containerd/nri/pkg/stub"
 	"github.com/containerd/ttrpc"
+	"github.com/sirupsen/logrus"
 
 	"nriverif/fx"
 )
+
+// runtimeErrors keeps the last error-level log lines of the adaptation / stub (they say why a
+// plugin was closed); histories attach them for diagnosis only.
+type errLog struct {
+	mu    sync.Mutex
+	lines []string
+}
+
+var runtimeErrors errLog
+
+func (l *errLog) Levels() []logrus.Level {
+	return []logrus.Level{logrus.ErrorLevel, logrus.WarnLevel}
+}
+
+func (l *errLog) Fire(e *logrus.Entry) error {
+	l.mu.Lock()
+	if len(l.lines) >= 200 {
+		l.lines = l.lines[100:]
+	}
+	m := e.Message
+	if len(m) > 300 {
+		m = m[:300]
+	}
+	l.lines = append(l.lines, time.Now().Format("15:04:05.000 ")+m)
+	l.mu.Unlock()
+	return nil
+}
+
+func (l *errLog) reset() {
+	l.mu.Lock()
+	l.lines = nil
+	l.mu.Unlock()
+}
+
+func (l *errLog) snapshot() []string {
+	l.mu.Lock()
+	defer l.mu.Unlock()
+	return append([]string(nil), l.lines...)
+}
+
+// stall monitor: a goroutine that should wake every 2 ms records the longest time it was kept
+// from running. It measures how badly the machine is oversubscribed while a case runs; it is
+// never an oracle, only evidence for setting an execution aside as overloaded.
+var stallMaxNs atomic.Int64
+
+func init() {
+	go func() {
+		last := time.Now()
+		for {
+			time.Sleep(2 * time.Millisecond)
+			now := time.Now()
+			if gap := int64(now.Sub(last)); gap > stallMaxNs.Load() {
+				stallMaxNs.Store(gap)
+			}
+			last = now
+		}
+	}()
+}
+
+func stallReset()             { stallMaxNs.Store(0) }
+func stallMax() time.Duration { return time.Duration(stallMaxNs.Load()) }
+
+func init() {
+	logrus.SetLevel(logrus.WarnLevel) // output stays discarded (fx), the hook sees warnings and errors
+	logrus.AddHook(&runtimeErrors)
+}
 
 func init() {
 	// Handlers in this package answer at once (apart from a drawn widening sleep of at most a
